@@ -1,6 +1,5 @@
-import QuicModel.Drivers.DcReplay
 import QuicModel.Drivers.VarInt
 namespace Quic.Drivers
 def all : List Component :=
-  DcReplay.components ++ VarInt.components
+  VarInt.components
 end Quic.Drivers
